@@ -15,13 +15,23 @@ import common as C
 class GatedReader:
     def __init__(self):
         self.replies: List[bytes] = []
-        self.waiting = False
+        self.waiters = 0            # reads pending on this stream (more than one only if two clients share it, which they must not)
         self.permit: asyncio.Queue = asyncio.Queue()
 
+    @property
+    def waiting(self) -> bool:
+        return self.waiters > 0
+
+    @waiting.setter
+    def waiting(self, v: bool) -> None:
+        pass
+
     async def read(self, n: int = -1) -> bytes:
-        self.waiting = True
-        await self.permit.get()
-        self.waiting = False
+        self.waiters += 1
+        try:
+            await self.permit.get()
+        finally:
+            self.waiters -= 1
         return self.replies.pop(0) if self.replies else b""
 
 
@@ -33,23 +43,31 @@ async def _run(hist, traveller):
     outs: List[List[str]] = [[] for _ in range(n)]
     streams = {}
 
+    opened = [0]
+
     async def fake_open_connection(host=None, port=None, family=None, **kw):
-        i = int(host.rsplit(".", 1)[1]) - 1
-        return readers[i], streams[i]
+        # instances normally sit on different addresses; with "same_ip" they all talk to ONE address (two clients of one device) and the
+        # k-th connection opened belongs to the k-th instance (they connect in that order)
+        i = opened[0] if hist.get("same_ip") else int(host.rsplit(".", 1)[1]) - 1
+        opened[0] += 1
+        return readers[min(i, n - 1)], streams[min(i, n - 1)]
     saved = A.open_connection
     A.open_connection = fake_open_connection
     try:
         tasks = []
         for i, inst in enumerate(hist["instances"]):
             streams[i] = H.FakeWriter(logs[i])
-            tasks.append(asyncio.ensure_future(_instance_with_writer(i, inst, readers[i], logs[i], outs[i], traveller)))
+            tasks.append(asyncio.ensure_future(_instance_with_writer(0 if hist.get("same_ip") else i, inst, readers[i], logs[i], outs[i], traveller)))
         sched = list(hist.get("schedule", []))
         k = 0
         guard = 0
         while not all(t.done() for t in tasks):
             guard += 1
             if guard > 100000:
-                raise RuntimeError("scheduler stuck")
+                for t in tasks:
+                    t.cancel()
+                return [o + ["frames=- out=raise HarnessStuck(the exchanges did not finish)"] * (len(inst["ops"]) - len(o))
+                        for o, inst in zip(outs, hist["instances"])]
             await asyncio.sleep(0)
             waiting = [i for i in range(n) if readers[i].waiting and not tasks[i].done()]
             if not waiting:
